@@ -16,6 +16,7 @@ import (
 	"os"
 	"runtime"
 	"strings"
+	"syscall"
 
 	"github.com/piotrnar/gocoin/lib/btc"
 
@@ -121,18 +122,34 @@ func errClass(err error) string {
 }
 
 // classifyAccepted names the reason gocoin accepted an encoding the reference refuses.
-func classifyAccepted(rerr error, tx *btc.Tx) viol {
+const nilKey = "trunc/nil-element-accepted"
+
+func hasNilElement(tx *btc.Tx) bool {
 	for _, ti := range tx.TxIn {
 		if ti == nil {
-			return viol{"trunc/accepted-with-nil-element", "NewTx returned a transaction holding a nil *TxIn: NewTxIn hit the end of the buffer, returned (nil,0) and NewTx went on (reference: " + rerr.Error() + ")"}
+			return true
 		}
 	}
 	for _, to := range tx.TxOut {
 		if to == nil {
-			return viol{"trunc/accepted-with-nil-element", "NewTx returned a transaction holding a nil *TxOut: NewTxOut hit the end of the buffer, returned (nil,0) and NewTx went on (reference: " + rerr.Error() + ")"}
+			return true
 		}
 	}
-	if len(tx.TxIn) == 0 && tx.SegWit == nil && len(tx.TxOut) > 0 {
+	return false
+}
+
+func classifyAccepted(rerr error, tx *btc.Tx, b []byte) viol {
+	for _, ti := range tx.TxIn {
+		if ti == nil {
+			return viol{nilKey, "NewTx returns a transaction holding a nil *TxIn: NewTxIn hit the end of the buffer inside its length prefix, returned (nil,0), and NewTx ignored that and went on decoding at the same offset (reference: " + rerr.Error() + ")"}
+		}
+	}
+	for _, to := range tx.TxOut {
+		if to == nil {
+			return viol{nilKey, "NewTx returns a transaction holding a nil *TxOut: NewTxOut hit the end of the buffer inside its length prefix, returned (nil,0), and NewTx ignored that and went on decoding at the same offset (reference: " + rerr.Error() + ")"}
+		}
+	}
+	if len(tx.TxIn) == 0 && tx.SegWit == nil && len(b) > 5 && b[4] == 0 && b[5] != 0 {
 		return viol{"marker/empty-vin-nonzero-flag-accepted", "after an empty input vector Core reads the next byte as the BIP144 flag byte (only 01 with a real witness is legal; anything else is refused); NewTx treats every value but 01 as the output count and accepts a 0-input transaction (reference: " + rerr.Error() + ")"}
 	}
 	switch {
@@ -289,23 +306,34 @@ func evalTx(b []byte) (res caseResult) {
 	if acc {
 		implCl = "accept"
 		raw := in[:n]
-		if p := try("SetHash", func() { tx.SetHash(raw) }); p != "" {
-			add("panic/"+p, "panic in Tx.SetHash on a transaction returned by NewTx")
-		}
 		if rerr != nil {
-			v := classifyAccepted(rerr, tx)
-			add(v.Key, v.What)
+			v := classifyAccepted(rerr, tx, b)
 			// the remaining API must still not crash on what NewTx returned
+			var pan []string
 			for _, c := range []struct {
 				n string
 				f func()
-			}{{"Serialize", func() { tx.Serialize() }}, {"SerializeNew", func() { tx.SerializeNew() }}, {"WTxID", func() { tx.WTxID() }}, {"Weight", func() { tx.Weight(); tx.VSize() }}} {
+			}{{"SetHash", func() { tx.SetHash(raw) }}, {"Serialize", func() { tx.Serialize() }}, {"SerializeNew", func() { tx.SerializeNew() }}, {"WTxID", func() { tx.WTxID() }}, {"Weight", func() { tx.Weight(); tx.VSize() }}} {
 				if p := try(c.n, c.f); p != "" {
-					add("panic/"+p, "panic in Tx."+c.n+" on a transaction returned by NewTx")
+					pan = append(pan, p)
+				}
+			}
+			if v.Key == nilKey {
+				if len(pan) > 0 {
+					v.What += "; using it panics: " + strings.Join(pan, ", ")
+				}
+				add(v.Key, v.What)
+			} else {
+				add(v.Key, v.What)
+				for _, p := range pan {
+					add("panic/"+p, "panic in a Tx method on a transaction returned by NewTx")
 				}
 			}
 			res.Shape = shapeOf(len(tx.TxIn), len(tx.TxOut), tx.SegWit != nil)
 		} else {
+			if p := try("SetHash", func() { tx.SetHash(raw) }); p != "" {
+				add("panic/"+p, "panic in Tx.SetHash on a transaction returned by NewTx")
+			}
 			if n != rn {
 				add("accept/consumed-mismatch", fmt.Sprintf("NewTx consumed %d bytes, reference %d", n, rn))
 			} else {
@@ -354,12 +382,22 @@ func evalBlock(b []byte, dohash bool) (res caseResult) {
 	runtime.ReadMemStats(&memB)
 	res.Alloc = memB.TotalAlloc - memA.TotalAlloc
 	if p != "" {
-		add("panic/"+stage+strings.TrimPrefix(p, "block"), "panic out of btc."+stage)
+		msg := strings.TrimPrefix(p, "block:")
+		switch {
+		case stage == "NewBlock" && len(b) < 80 && strings.Contains(msg, "slice bounds out of range"):
+			add("block/short-input-panic", "btc.NewBlock panics on an input shorter than 80 bytes: it evaluates NewSha2Hash(data[:80]) before UpdateContent checks the length ("+msg+")")
+		case stage == "BuildTxListExt" && strings.Contains(msg, "makeslice"):
+			add("block/txcount-makeslice-panic", "Block.BuildTxListExt panics: make([]*Tx, TxCount) with a negative / out-of-range count taken from the wire ("+msg+")")
+		case stage == "BuildTxListExt" && strings.Contains(msg, "nil pointer") && blockHasNilElement(in):
+			add(nilKey, "a transaction inside the block decodes (btc.NewTx) to a Tx holding a nil *TxIn/*TxOut (element decoder hit the end of the buffer, failure ignored); Block.BuildTxListExt then panics out of the API: "+msg)
+		default:
+			add("panic/"+stage+":"+msg, "panic out of btc."+stage)
+		}
 		res.Class = "ref=" + blockErrClass(rerr) + "/impl=panic"
 		return
 	}
 	if res.Alloc > allocBound(len(b)) {
-		add("block/alloc-count-driven-disproportionate", fmt.Sprintf("NewBlock+BuildTxListExt allocated %d bytes for a %d-byte input (bound %d)", res.Alloc, len(b), allocBound(len(b))))
+		add("block/txcount-driven-disproportionate", fmt.Sprintf("NewBlock+BuildTxListExt allocated %d bytes for a %d-byte input (bound 64*len+64KiB = %d): make([]*Tx, TxCount) with the count from the wire", res.Alloc, len(b), allocBound(len(b))))
 	}
 	acc := err == nil
 	res.Acc = acc
@@ -380,7 +418,7 @@ func evalBlock(b []byte, dohash bool) (res caseResult) {
 			}
 		case "tx":
 			if be.Index < len(bl.Txs) && bl.Txs[be.Index] != nil {
-				v := classifyAccepted(be.Err, bl.Txs[be.Index])
+				v := classifyAccepted(be.Err, bl.Txs[be.Index], bl.Txs[be.Index].Raw)
 				add(v.Key, v.What)
 			} else {
 				add("block/refused-by-reference-accepted", rerr.Error())
@@ -440,6 +478,24 @@ func evalBlock(b []byte, dohash bool) (res caseResult) {
 	return
 }
 
+// blockHasNilElement walks the block's transactions with btc.NewTx alone.
+func blockHasNilElement(in []byte) (found bool) {
+	defer func() { recover() }()
+	cnt, n := btc.VLen(in[80:])
+	off := 80 + n
+	for i := 0; i < cnt && n > 0; i++ {
+		tx, k := btc.NewTx(in[off:])
+		if tx == nil || k == 0 {
+			return false
+		}
+		if hasNilElement(tx) {
+			return true
+		}
+		off += k
+	}
+	return false
+}
+
 func blockErrClass(err error) string {
 	if err == nil {
 		return "ok"
@@ -453,11 +509,32 @@ func blockErrClass(err error) string {
 // ---- worker main loop ----
 
 func workerMain() {
+	if v := os.Getenv("C09_VLIMIT_KB"); v != "" {
+		var kb uint64
+		fmt.Sscan(v, &kb)
+		lim := syscall.Rlimit{Cur: kb << 10, Max: kb << 10}
+		if err := syscall.Setrlimit(syscall.RLIMIT_AS, &lim); err != nil {
+			fmt.Fprintln(os.Stderr, "HARNESS: setrlimit:", err)
+			os.Exit(3)
+		}
+	}
 	out := os.Stdout
 	if dn, err := os.OpenFile("/dev/null", os.O_WRONLY, 0); err == nil {
 		os.Stdout = dn
 	}
-	var bases []base
+	var specs []baseSpec
+	cache := map[int]*base{}
+	getBase := func(i int, thor bool) *base {
+		if b := cache[i]; b != nil {
+			return b
+		}
+		b := specs[i].build(thor)
+		if len(cache) > 64 {
+			cache = map[int]*base{}
+		}
+		cache[i] = b
+		return b
+	}
 	var blocks []bbase
 	var basesThor bool
 	loaded := false
@@ -471,8 +548,9 @@ func workerMain() {
 			os.Exit(3)
 		}
 		if (j.Kind == "tx" || j.Kind == "block") && (!loaded || basesThor != j.Thor) {
-			bases = buildBases(j.Thor)
+			specs = buildBases(j.Thor)
 			blocks = buildBlocks(j.Thor)
+			cache = map[int]*base{}
 			basesThor, loaded = j.Thor, true
 		}
 		alpha := alpha8
@@ -500,7 +578,7 @@ func workerMain() {
 			kind := "tx"
 			switch j.Kind {
 			case "tx":
-				c = txGen(&bases[j.Base], j.Fam, alpha, i)
+				c = txGen(getBase(j.Base, j.Thor), j.Fam, alpha, i)
 			case "short":
 				c = shortGen(i)
 			case "block":
